@@ -159,6 +159,10 @@ func verifCover(label string) { verifRes.Covers = append(verifRes.Covers, label)
 
 func verifConcretize(x int64) int64 { return x }
 
+// verifConcretizeBig makes the engine enumerate the feasible values of *b (one path per
+// value), so that everything computed from it is linear; natively a no-op.
+func verifConcretizeBig(b *BigInt) {}
+
 // verifKnownRegion marks a region of the input space delimited by a listed
 // known finding; when the finding is listed as open the engine excludes the
 // region, natively the path is just recorded.
